@@ -14,6 +14,13 @@ pub struct Printer<'a> {
     /// deterministic style choices
     style: u64,
     head_depth: u32,
+    /// C05 "inference" mode: percentage of integer literals printed without suffix and of
+    /// let annotations dropped
+    pub drop_suffix_pct: u64,
+    pub drop_annot_pct: u64,
+    /// > 0 while printing the initializer of a let whose annotation was dropped: generator mask
+    /// for known finding KF-C05-1 (literals there keep their suffix)
+    force_suffix: u32,
 }
 
 fn is_atom(e: &Expr) -> bool {
@@ -42,7 +49,7 @@ fn is_postfix_base(e: &Expr) -> bool {
 
 impl<'a> Printer<'a> {
     pub fn new(defs: &'a Defs, fns: &'a [FnDef], style: u64) -> Self {
-        Printer { toks: vec![], defs, fns, style, head_depth: 0 }
+        Printer { toks: vec![], defs, fns, style, head_depth: 0, drop_suffix_pct: 0, drop_annot_pct: 0, force_suffix: 0 }
     }
 
     fn emit(&mut self, t: &str) -> u32 {
@@ -68,6 +75,7 @@ impl<'a> Printer<'a> {
     fn lit(&mut self, v: &Val, ty: &Ty) -> Span {
         let text = match (v, ty) {
             (Val::Bool(b), _) => b.to_string(),
+            (Val::Int(x), Ty::Int(_)) if self.drop_suffix_pct > 0 && self.force_suffix == 0 && self.choice(100) < self.drop_suffix_pct => x.to_string(),
             (Val::Int(x), Ty::Int(t)) => t.lit(*x),
             _ => panic!("harness: non-primitive literal"),
         };
@@ -101,7 +109,7 @@ impl<'a> Printer<'a> {
     fn index_tokens(&mut self, idx: &Expr) {
         self.emit("[");
         match &idx.kind {
-            ExprKind::Lit(Val::Int(v)) if *v >= 0 && self.choice(2) == 0 => {
+            ExprKind::Lit(Val::Int(v)) if *v >= 0 && idx.ty == Ty::Int(crate::ints::USIZE) && self.choice(2) == 0 => {
                 // suffix-free constant index: the parser turns it into a usize literal
                 let i = self.emit(&v.to_string());
                 idx.span.set((i, i));
@@ -127,6 +135,9 @@ impl<'a> Printer<'a> {
             }
         }
         self.head_depth += 1;
+        // generator mask for KF-C05-1: the scrutinee of a match and the iterated array of a for
+        // loop are bound to variables by patterns, so their literals keep their suffixes
+        self.force_suffix += 1;
         let s = if self.head_depth == 1 && simple(e) {
             self.expr(e)
         } else {
@@ -136,6 +147,7 @@ impl<'a> Printer<'a> {
             s
         };
         self.head_depth -= 1;
+        self.force_suffix -= 1;
         s
     }
 
@@ -301,13 +313,21 @@ impl<'a> Printer<'a> {
                 (i0, i2)
             }
             ExprKind::Index(b, i) => {
+                // generator mask for KF-C05-1: a value that is projected out of an aggregate gets
+                // its type only at the projection, not inside the aggregate
+                self.force_suffix += 1;
                 let sb = self.postfix_base(b);
+                self.force_suffix -= 1;
                 self.index_tokens(i);
                 let i1 = self.emit("]");
                 (sb.0, i1)
             }
             ExprKind::TupleField(b, k) => {
+                // generator mask for KF-C05-1: a value that is projected out of an aggregate gets
+                // its type only at the projection, not inside the aggregate
+                self.force_suffix += 1;
                 let sb = self.postfix_base(b);
+                self.force_suffix -= 1;
                 self.emit(".");
                 let i1 = self.emit(&k.to_string());
                 (sb.0, i1)
@@ -315,7 +335,9 @@ impl<'a> Printer<'a> {
             ExprKind::StructField(b, fi) => {
                 let Ty::Struct(si) = &b.ty else { panic!("harness: struct field on non-struct") };
                 let fname = self.defs.structs[*si].fields[*fi].0.clone();
+                self.force_suffix += 1;
                 self.postfix_base(b);
+                self.force_suffix -= 1;
                 self.emit(".");
                 let i1 = self.emit(&fname);
                 (i1, i1)
@@ -359,11 +381,13 @@ impl<'a> Printer<'a> {
             Pat::Tuple(ps) => {
                 let Ty::Tuple(ts) = ty else { panic!("harness: tuple pattern type") };
                 self.emit("(");
-                for (k, (p, t)) in ps.iter().zip(ts).enumerate() {
+                for (k, p) in ps.iter().enumerate() {
                     if k > 0 {
                         self.emit(",");
                     }
-                    self.pat(p, t);
+                    // (a mutant may have more patterns than the type has fields)
+                    let t = ts.get(k).cloned().unwrap_or(Ty::Bool);
+                    self.pat(p, &t);
                 }
                 self.emit(")");
             }
@@ -442,12 +466,20 @@ impl<'a> Printer<'a> {
             StmtKind::Let(p, ty, e, annotated) => {
                 let i0 = self.emit("let");
                 self.pat(p, ty);
-                if *annotated {
+                let keep = !(self.drop_annot_pct > 0 && self.choice(100) < self.drop_annot_pct);
+                let has_annotation = *annotated && keep;
+                if has_annotation {
                     self.emit(":");
                     self.ty(ty);
                 }
                 self.emit("=");
+                if !has_annotation {
+                    self.force_suffix += 1;
+                }
                 let se = self.expr(e);
+                if !has_annotation {
+                    self.force_suffix -= 1;
+                }
                 self.emit(";");
                 (i0, se.1)
             }
@@ -455,12 +487,20 @@ impl<'a> Printer<'a> {
                 let i0 = self.emit("let");
                 self.emit("mut");
                 self.emit(n);
-                if *annotated {
+                let keep = !(self.drop_annot_pct > 0 && self.choice(100) < self.drop_annot_pct);
+                let has_annotation = *annotated && keep;
+                if has_annotation {
                     self.emit(":");
                     self.ty(ty);
                 }
                 self.emit("=");
+                if !has_annotation {
+                    self.force_suffix += 1;
+                }
                 let se = self.expr(e);
+                if !has_annotation {
+                    self.force_suffix -= 1;
+                }
                 self.emit(";");
                 (i0, se.1)
             }
@@ -619,7 +659,14 @@ pub enum Layout {
 
 /// Print a whole program; assigns spans to all nodes. Returns the token list.
 pub fn print_program(p: &Program, style: u64) -> Vec<String> {
+    print_program_inference(p, style, 0, 0)
+}
+
+/// As `print_program`, dropping some literal suffixes / let annotations (C05).
+pub fn print_program_inference(p: &Program, style: u64, drop_suffix_pct: u64, drop_annot_pct: u64) -> Vec<String> {
     let mut pr = Printer::new(&p.defs, &p.fns, style);
+    pr.drop_suffix_pct = drop_suffix_pct;
+    pr.drop_annot_pct = drop_annot_pct;
     let main_first = style & 1 == 1;
     if main_first {
         pr.fn_def(p.main());
